@@ -184,6 +184,34 @@ def real(ctx, npairs):
     return cases_outs
 
 
+def family2_cases(ctx):
+    """the bounded family of theorem C01_family2_*: replayed on the implementation (quick: sample; thorough: all)"""
+    subsets = [["A"], ["B"], ["C"], ["A", "B"], ["A", "C"], ["B", "C"], ["A", "B", "C"]]
+    forms = [[s] for s in subsets] + [[a, b] for a in subsets for b in subsets]
+    kernels = [[f] for f in forms] + [[g, f] for f in forms for g in forms]      # order irrelevant: the sample is compared per kernel
+    assert len(kernels) == 3192
+    idx = list(range(len(kernels)))
+    if ctx.tier == "quick":
+        idx = ctx.rng.sample(idx, 240)
+    out = []
+    for i in idx:
+        fs = []
+        kern = []
+        for f in kernels[i]:
+            fd = {"tp": 1.0, "uops": [[1, list(s)] for s in f]}
+            if fd not in fs:
+                fs.append(fd)
+            kern.append(fs.index(fd))
+        case = {"ports": ["A", "B", "C"], "forms": fs, "kernel": kern, "mode": "once"}
+        o = pressure.run_impl(case)
+        ctx.count()
+        ctx.nontriv(("family2", i))
+        judge(ctx, case, o)
+        out.append((case, o))
+    ctx.coverage["family2_replayed"] = len(idx)
+    return out
+
+
 def corpus_cases(ctx):
     out = []
     for p in sorted(glob.glob(os.path.join(vlib.VERIF, "corpus", "C01", "*.json"))):
@@ -206,6 +234,8 @@ def run(ctx):
         for c, o in co:
             judge(ctx, c, o)
         run_cases(ctx, co, "corpus")
+    fam2 = family2_cases(ctx)
+    run_cases(ctx, fam2, "family2")
     syn = synthetic(ctx, ctx.n(320, 6400))
     run_cases(ctx, syn, "synthetic")
     re = real(ctx, ctx.n(10, 400))
